@@ -47,7 +47,7 @@ PROBES = ['{e.__class__}', '{0}', '{url!r}', '{e.body.__class__.__mro__}', '{e.t
           '<!--', '--><b>', '<![CDATA[', '\\', '\\x3cb\\x3e', '%3Cb%3E', '&amp;lt;', 'javascript:alert(1)', '<b' + 'a' * 1200 + '>', '<script>x</script>' + 'a' * 1200, 'a' * 1100 + '<b>"', '<i>' * 300]
 POSITIONS = ['path', 'query', 'host', 'xfhost', 'xfproto', 'requri', 'rawuri']     # requri / rawuri: the raw request target as some
 #                                                    servers record it in environ['REQUEST_URI'] / environ['RAW_URI']
-KINDS = ['404', '405', '400', '500', 'critical', '400path', '500data', 'criticaldm', '500datasetup', '404wild', '404static']      # 404wild: the path fails BELOW a wildcard that took the payload; 404static: static_file() misses a file     # criticaldm: the last-resort page of an application with a domain_map
+KINDS = ['404', '405', '400', '500', 'critical', '400path', '500data', 'criticaldm', '500datasetup', '404wild', '404static', '404log', '500log', '500hook']      # 404wild: the path fails BELOW a wildcard that took the payload; 404static: static_file() misses a file     # criticaldm: the last-resort page of an application with a domain_map
 
 
 # 'rawpath': PATH_INFO is the payload itself, WITHOUT a leading slash (a raw client / a server that does not normalise)
@@ -180,13 +180,26 @@ class Apps:
         self.app4 = app4
         app.route('/w/<x>/profile', 'GET', crash)
         # static files are served by the default application (static_file() works on the module-level request)
+        # an application whose before_request hook writes an access-log line (it looks at request.url and repr(request) before anything fails)
+        app6 = om.Ombott()
+        log = []
+        def access_log():
+            log[:] = [(app6.request.url, repr(app6.request), app6.request.urlparts.path)]
+        app6.add_hook('before_request', access_log)
+        app6.route('/c/<x:path>', 'GET', crash)
+        self.app6 = app6
+        # a route hook on a wildcard prefix that fails with an ordinary exception
+        def failing_hook(*a, **kw):
+            raise RuntimeError('hook failed')
+        app.on_route('/u/<name>/', failing_hook)
+        app.route('/u/<name>/settings', 'GET', crash)
         app5 = om.default_app()
         app5.route('/static/<name:path>', 'GET', lambda name: om.static_file(name, os.path.dirname(HERE)), overwrite=True)
         self.app5 = app5
 
     def request(self, kind, pos, payload, as_json):
-        base = {'404': '/nf/', '405': '/m/', '400': '/b/', '500': '/c/', 'critical': '/nf/', 'criticaldm': '/nf/', '500datasetup': '/d/', '404wild': '/w/', '404static': '/static/', '400path': '/nf/\xe9', '500data': '/d/'}[kind]
-        path = base + (payload if pos == 'path' else 'a') + ('/nope' if kind == '404wild' else '')
+        base = {'404log': '/nf/', '500log': '/c/', '500hook': '/u/', '404': '/nf/', '405': '/m/', '400': '/b/', '500': '/c/', 'critical': '/nf/', 'criticaldm': '/nf/', '500datasetup': '/d/', '404wild': '/w/', '404static': '/static/', '400path': '/nf/\xe9', '500data': '/d/'}[kind]
+        path = base + (payload if pos == 'path' else 'a') + ('/nope' if kind == '404wild' else '/settings' if kind == '500hook' else '')
         if pos == 'rawpath':
             path = payload
         qs = ('q=' + payload) if pos == 'query' else 'q=a'
@@ -213,7 +226,7 @@ class Apps:
         env = wsgi.environ(method, path, qs=qs, headers=headers, **kw)
         if pos in ('requri', 'rawuri'):
             env['REQUEST_URI' if pos == 'requri' else 'RAW_URI'] = base + payload + '?q=' + payload
-        return wsgi.call({'critical': self.app2, 'criticaldm': self.app3, '500datasetup': self.app4, '404static': self.app5}.get(kind, self.app), env)
+        return wsgi.call({'critical': self.app2, 'criticaldm': self.app3, '500datasetup': self.app4, '404static': self.app5, '404log': self.app6, '500log': self.app6}.get(kind, self.app), env)
 
 
 OTHER_ACCEPTS = [None, None, 'text/plain', 'text/html,application/xhtml+xml,*/*;q=0.8', '*/*', 'text/plain, */*', 'text/*']      # clients that do not ask for JSON
@@ -222,7 +235,7 @@ JSON_ACCEPTS = ['application/json', 'application/json, text/plain, */*', 'applic
 
 
 def expected_status(kind):
-    return {'404': 404, '405': 405, '400': 400, '500': 500, 'critical': 500, 'criticaldm': 500, '500datasetup': 500, '404wild': 404, '404static': 404, '400path': 400, '500data': 500}[kind]
+    return {'404log': 404, '500log': 500, '500hook': 500, '404': 404, '405': 405, '400': 400, '500': 500, 'critical': 500, 'criticaldm': 500, '500datasetup': 500, '404wild': 404, '404static': 404, '400path': 400, '500data': 500}[kind]
 
 
 def shown(pos, payload):
@@ -239,6 +252,8 @@ def judge(apps, kind, pos, payload, as_json, baseline, core_alphabet=True):
         return None     # a seed-extension character changed the routing of the request: not the error kind under test
     if kind == '404static' and c.code == 403:
         pass            # static_file refuses some names (backslashes, dot-dot) with 403: the same framework-generated page
+    elif kind == '500hook' and c.code == 404 and pos == 'path' and '/' in payload:
+        pass            # a slash in the payload ends the wildcard segment: no route, the 404 page is judged instead
     elif c.code != expected_status(kind):
         return 'status', f'status {c.status}, expected {expected_status(kind)}'
     body = c.body.decode('utf8', 'replace')
